@@ -537,8 +537,15 @@ fn main() {
             // C06 / C07(payload): load malformed input; record what happened; the verdict is TLC's (MutTrace.tla)
             // Address-space limit: an absurd declared length must fail to allocate at once instead of
             // zero-filling gigabytes (hash tables, bit vectors) before the reader notices the end of input.
+            // (the limit is RELATIVE to what this process already maps: the registry of the thorough tier alone is large)
             unsafe {
-                let lim = libc::rlimit { rlim_cur: 3 << 29, rlim_max: 3 << 29 };
+                let mapped = std::fs::read_to_string("/proc/self/statm")
+                    .ok()
+                    .and_then(|s| s.split_whitespace().next().and_then(|p| p.parse::<u64>().ok()))
+                    .map(|pages| pages * 4096)
+                    .unwrap_or(1 << 30);
+                let lim = mapped + (3u64 << 29);
+                let lim = libc::rlimit { rlim_cur: lim, rlim_max: lim };
                 libc::setrlimit(libc::RLIMIT_AS, &lim);
             }
             let input = std::fs::File::open(&args[2]).expect("records file");
